@@ -7,6 +7,15 @@ from .angle import LorentzVector
 
 
 def get_p(M, ma, mb):
+    # python floats must not pass through float32 (tf.cast / tf.zeros_like of a float)
+    M, ma, mb = [
+        (
+            tf.cast(i, tf.float64)
+            if tf.is_tensor(i)
+            else tf.convert_to_tensor(i, tf.float64)
+        )
+        for i in (M, ma, mb)
+    ]
     m2 = M * M
     m_p = (ma + mb) ** 2
     m_m = (ma - mb) ** 2
